@@ -106,6 +106,32 @@ pub fn cases(tier: Tier) -> Vec<Case> {
             }
         }
     }
+    // the shape of the sample: for estimates of 4 KiB and more the builder draws a sample of estimate / 256 bytes and
+    // scores it in segments of 2048 bytes, k-mers of 16 bytes. Every sample size whose last segment is empty, shorter
+    // than a k-mer (1, 14, 15), exactly one k-mer, or longer, with one, two and three segments - each with a source
+    // longer than the sample (epochs are scored) and one that the sampler drains (none is)
+    for sample in [17usize, 31, 32, 33, 100, 2047, 2048, 2049, 2053, 2062, 2063, 2064, 2065, 4096, 4097, 4111] {
+        let mut ests = vec![256 * sample];
+        if sample == 2063 {
+            ests.push(256 * sample + 255);
+        }
+        let longer: Vec<usize> = [300usize, 1000, 4096, 10_000].into_iter().filter(|l| *l > sample).take(2).collect();
+        let drained = [300usize, 1000, 4096].into_iter().filter(|l| *l <= sample).last();
+        for est in ests {
+            for &len in longer.iter().chain(drained.iter()) {
+                for dict_size in [64usize, 4096] {
+                    for kind in [0usize, 4] {
+                        for reader in [0usize, 2] {
+                            if sample > 2100 && reader != 0 {
+                                continue;
+                            }
+                            v.push(Case { len, estimate: est, dict_size, kind, reader, files: vec![], real_dir: None });
+                        }
+                    }
+                }
+            }
+        }
+    }
     // a chain of files, as create_raw_dict_from_dir hands it to the builder (every file end is a short read):
     // every vector of 1..=3 file sizes over a set that straddles the 16-byte reservoir
     const SIZES: [usize; 9] = [0, 1, 7, 10, 15, 16, 17, 100, 5000];
@@ -324,7 +350,7 @@ pub fn main(tier: Tier, replay: Option<Value>, wa: Option<WorkerArgs>) -> i32 {
     run.set("distinct_nontrivial", nontrivial);
     run.set("cases_planned", cs.len() as u64);
     run.set("exhaustive", true);
-    run.set("rule", "create_raw_dict_from_source with the random generator seeded from VERIF_SEED (each case under two seeds): true source length every value 0..=300 and {1000, 2047, 2048, 2049, 4096, 10000 (+30000, 100000)} x size estimate {0, 15, 16, 17, 31, 32, len/2, len, 2*len, 10^6, 2^32, 2^32+2048} x dictionary size {0, 1, 15, 16, 17, 64, 2047, 2048, 2049, 4096, 10^6} x content {constant, ramp, period 16, period 17, text} x reader {whole slice, 1 / 100 bytes per read; 7 / 15 / 3 bytes per read (chunks that step over the reservoir size) for two contents}; then every chain of 1..=3 sources with sizes from {0,1,7,10,15,16,17,100,5000} (what create_raw_dict_from_dir builds: each file end is a short read) x dictionary size {0,16,64,2048} x 2 contents x {whole, 7-byte reads}, and create_raw_dict_from_dir itself over real flat / nested directories with up to two files; oracle: returns (300 s watchdog in a worker process; 4 GiB and 10^6 estimates only for a few source lengths because the builder's segment scoring is quadratic in the sample), no panic, the source is not polled more than 1000 times after it reported its end (the unchanged builder asks at most three more times; the real-directory calls get 20 s on their own thread) (non-termination made finite), output.len() <= dict_size. non-trivial = a non-empty dictionary within the limit");
+    run.set("rule", "create_raw_dict_from_source with the random generator seeded from VERIF_SEED (each case under two seeds): true source length every value 0..=300 and {1000, 2047, 2048, 2049, 4096, 10000 (+30000, 100000)} x size estimate {0, 15, 16, 17, 31, 32, len/2, len, 2*len, 10^6, 2^32, 2^32+2048} x dictionary size {0, 1, 15, 16, 17, 64, 2047, 2048, 2049, 4096, 10^6} x content {constant, ramp, period 16, period 17, text} x reader {whole slice, 1 / 100 bytes per read; 7 / 15 / 3 bytes per read (chunks that step over the reservoir size) for two contents}; then estimates 256*s for every sample size s in {17,31,32,33,100,2047,2048,2049,2053,2062,2063,2064,2065,4096,4097,4111} (the sample's last 2048-byte segment empty / shorter than a 16-byte k-mer / exactly one / longer; one to three segments) x sources longer than the sample and one the sampler drains x dictionary size {64,4096} x 2 contents x 2 readers; then every chain of 1..=3 sources with sizes from {0,1,7,10,15,16,17,100,5000} (what create_raw_dict_from_dir builds: each file end is a short read) x dictionary size {0,16,64,2048} x 2 contents x {whole, 7-byte reads}, and create_raw_dict_from_dir itself over real flat / nested directories with up to two files; oracle: returns (300 s watchdog in a worker process; 4 GiB and 10^6 estimates only for a few source lengths because the builder's segment scoring is quadratic in the sample), no panic, the source is not polled more than 1000 times after it reported its end (the unchanged builder asks at most three more times; the real-directory calls get 20 s on their own thread) (non-termination made finite), output.len() <= dict_size. non-trivial = a non-empty dictionary within the limit");
     run.sample(json!({"case": "source of 1000 bytes (text, 100 bytes per read), size estimate 1000, dictionary size 64"}));
     run.finish()
 }
